@@ -4,7 +4,7 @@
    (Model/C06_RowSel.v, section S). *)
 From Coq Require Import List ZArith Arith Bool.
 From AV Require Import Model.C06_RowSel Model.C06_Reader.
-From AV Require Import Proofs.C06_Basics Proofs.C06_AndThen Proofs.C06_Construct Proofs.C06_Algebra Proofs.C06_Plan.
+From AV Require Import Proofs.C06_Basics Proofs.C06_AndThen Proofs.C06_Construct Proofs.C06_Algebra Proofs.C06_Plan Proofs.C06_Total Proofs.C06_Cursor Proofs.C06_Scan.
 Import ListNotations.
 
 (* ---- constructors *)
@@ -46,11 +46,14 @@ Theorem den_and_then : forall a b r : rowsel,
 Proof. exact Proofs.C06_Plan.den_and_then. Qed.
 Print Assumptions den_and_then.
 
-(* the bitmap/bitmap pairing succeeds exactly under the documented precondition *)
-Theorem and_then_masks_total : forall mask other : list bool,
-  count_true mask = length other -> and_then_masks mask other <> None.
-Proof. exact Proofs.C06_AndThen.and_then_masks_total. Qed.
-Print Assumptions and_then_masks_total.
+(* ... and under the documented precondition (the second selection has exactly as many rows as
+   the first selects; its run-length form has no empty run, as every constructor guarantees)
+   no pairing panics *)
+Theorem and_then_total : forall a b : rowsel,
+  match b with Sels l => Forall (fun s : sel => snd s <> 0) l | Mask _ => True end ->
+  count_true (den a) = length (den b) -> and_then a b <> None.
+Proof. exact Proofs.C06_Total.and_then_total. Qed.
+Print Assumptions and_then_total.
 
 (* ---- intersection / union: pointwise, the longer operand's tail passes through *)
 Theorem den_intersection : forall a b : rowsel, den (intersection a b) = zip_tail andb (den a) (den b).
@@ -112,12 +115,47 @@ Theorem row_count_spec : forall s : rowsel,
 Proof. exact counters_den. Qed.
 Print Assumptions row_count_spec.
 
-(* ---- the read plan: whenever the plan the sync reader derives from (selection, predicates,
-   offset, limit) can be built, the rows it visits are those of the reference reader: rows of
-   the chosen row groups -> selection -> predicates in order -> offset -> limit *)
+(* ---- scan_ranges (page pruning): a page holding a selected row is always fetched.
+   [page_of pages r] is the page holding row r, for pages given as (index, first_row_index) *)
+Theorem scan_ranges_cover : forall (s : rowsel) (first_rows : list nat) (i p : nat),
+  nth i (den s) false = true ->
+  page_of (combine (seq 0 (length first_rows)) first_rows) i = Some p ->
+  In p (scan_ranges s first_rows).
+Proof. exact Proofs.C06_Scan.scan_ranges_cover. Qed.
+Print Assumptions scan_ranges_cover.
+
+(* ---- ReadPlanBuilder::build with the Mask policy + MaskCursor::next_mask_chunk: the chunks
+   (initial_skip, chunk_rows, selected_rows, mask_start, mask bits) tile the trimmed selection and
+   none selects more rows than the batch size *)
+Theorem mask_plan_tiles : forall (s : rowsel) (bs : nat),
+  match s with Sels l => Forall (fun x : sel => fst x = false -> snd x <> 0) l | Mask _ => True end ->
+  1 <= bs ->
+  flat_map (fun c : nat * nat * nat * nat * list bool =>
+              match c with (isk, _, _, _, bits) => repeat false isk ++ bits end) (plan_mask s bs)
+  = rev (drop_false (rev (den s)))
+  /\ Forall (fun c : nat * nat * nat * nat * list bool =>
+               match c with (_, rows, selected, _, bits) =>
+                 selected <= bs /\ selected = count_true bits /\ rows = length bits /\ 1 <= rows end)
+            (plan_mask s bs).
+Proof. exact plan_mask_spec. Qed.
+Print Assumptions mask_plan_tiles.
+
+(* ---- the read plan: the plan the sync reader derives from (selection, predicates, offset,
+   limit) can always be built when the selection does not extend past the rows of the chosen row
+   groups, and the rows it visits are exactly those of the reference reader: rows of the chosen
+   row groups -> selection -> predicates in order -> offset -> limit *)
 Theorem read_plan_refines : forall (nullmod : Z) (rg_counts : list Z) (chosen : list nat)
+    (selection : option rowsel) (preds : list pred) (off lim : option nat),
+  match selection with Some s => length (den s) <= length (rows_of rg_counts chosen) | None => True end ->
+  plan_read nullmod rg_counts chosen selection preds off lim
+  = Some (reference_read nullmod rg_counts chosen (option_map den selection) preds off lim).
+Proof. exact plan_read_total. Qed.
+Print Assumptions read_plan_refines.
+
+(* without the side condition: whenever the plan can be built it reads the reference rows *)
+Theorem read_plan_sound : forall (nullmod : Z) (rg_counts : list Z) (chosen : list nat)
     (selection : option rowsel) (preds : list pred) (off lim : option nat) (ids : list Z),
   plan_read nullmod rg_counts chosen selection preds off lim = Some ids ->
   ids = reference_read nullmod rg_counts chosen (option_map den selection) preds off lim.
 Proof. exact plan_read_refines. Qed.
-Print Assumptions read_plan_refines.
+Print Assumptions read_plan_sound.
